@@ -650,67 +650,112 @@ fn stringify(
             );
             format!("{s1}:{s2}")
         }
-        OpRangeKind { left, right } => format!(
-            "{}:{}",
-            stringify(
+        OpRangeKind { left, right } => {
+            // The operands of the range operator are primaries: any operator needs parentheses
+            let x = stringify(
                 left,
                 context,
                 displace_data,
                 export_to_excel,
                 locale,
-                language
-            ),
-            stringify(
+                language,
+            );
+            let x = if matches!(
+                **left,
+                OpRangeKind { .. }
+                    | OpConcatenateKind { .. }
+                    | OpSumKind { .. }
+                    | OpProductKind { .. }
+                    | OpPowerKind { .. }
+                    | CompareKind { .. }
+                    | UnaryKind { .. }
+            ) {
+                format!("({x})")
+            } else {
+                x
+            };
+            let y = stringify(
                 right,
                 context,
                 displace_data,
                 export_to_excel,
                 locale,
-                language
-            )
-        ),
-        OpConcatenateKind { left, right } => format!(
-            "{}&{}",
-            stringify(
+                language,
+            );
+            let y = if matches!(
+                **right,
+                OpRangeKind { .. }
+                    | OpConcatenateKind { .. }
+                    | OpSumKind { .. }
+                    | OpProductKind { .. }
+                    | OpPowerKind { .. }
+                    | CompareKind { .. }
+                    | UnaryKind { .. }
+            ) {
+                format!("({y})")
+            } else {
+                y
+            };
+            format!("{x}:{y}")
+        }
+        OpConcatenateKind { left, right } => {
+            // CompareKind has lower precedence than &, so wrap it to preserve semantics
+            let x = stringify(
                 left,
                 context,
                 displace_data,
                 export_to_excel,
                 locale,
-                language
-            ),
-            stringify(
+                language,
+            );
+            let x = if matches!(**left, CompareKind { .. }) {
+                format!("({x})")
+            } else {
+                x
+            };
+            let y = stringify(
                 right,
                 context,
                 displace_data,
                 export_to_excel,
                 locale,
-                language
-            )
-        ),
-        CompareKind { kind, left, right } => format!(
-            "{}{}{}",
-            stringify(
+                language,
+            );
+            let y = if matches!(**right, CompareKind { .. }) {
+                format!("({y})")
+            } else {
+                y
+            };
+            format!("{x}&{y}")
+        }
+        CompareKind { kind, left, right } => {
+            let x = stringify(
                 left,
                 context,
                 displace_data,
                 export_to_excel,
                 locale,
-                language
-            ),
-            kind,
-            stringify(
+                language,
+            );
+            // comparisons associate to the left: 1=(2<3) needs the parentheses
+            let y = stringify(
                 right,
                 context,
                 displace_data,
                 export_to_excel,
                 locale,
-                language
-            )
-        ),
+                language,
+            );
+            let y = if matches!(**right, CompareKind { .. }) {
+                format!("({y})")
+            } else {
+                y
+            };
+            format!("{x}{kind}{y}")
+        }
         OpSumKind { kind, left, right } => {
-            // CompareKind has lower precedence than +/-, so wrap it to preserve semantics
-            let left_str = if matches!(**left, CompareKind { .. }) {
+            // CompareKind and & have lower precedence than +/-, so wrap them to preserve semantics
+            let left_str = if matches!(**left, CompareKind { .. } | OpConcatenateKind { .. }) {
                 format!(
                     "({})",
                     stringify(
@@ -732,9 +777,10 @@ fn stringify(
                     language,
                 )
             };
-            // if kind is minus then we need parentheses in the right side if they are OpSumKind or CompareKind
+            // if kind is minus then we need parentheses in the right side if they are OpSumKind;
+            // CompareKind and OpConcatenateKind always need them
             let right_str = if (matches!(kind, OpSum::Minus) && matches!(**right, OpSumKind { .. }))
-                | matches!(**right, CompareKind { .. })
+                | matches!(**right, CompareKind { .. } | OpConcatenateKind { .. })
             {
                 format!(
                     "({})",
@@ -762,7 +808,7 @@ fn stringify(
         }
         OpProductKind { kind, left, right } => {
             let x = match **left {
-                OpSumKind { .. } | CompareKind { .. } => format!(
+                OpSumKind { .. } | CompareKind { .. } | OpConcatenateKind { .. } => format!(
                     "({})",
                     stringify(
                         left,
@@ -783,7 +829,10 @@ fn stringify(
                 ),
             };
             let y = match **right {
-                OpSumKind { .. } | CompareKind { .. } | OpProductKind { .. } => format!(
+                OpSumKind { .. }
+                | CompareKind { .. }
+                | OpProductKind { .. }
+                | OpConcatenateKind { .. } => format!(
                     "({})",
                     stringify(
                         right,
@@ -969,8 +1018,6 @@ fn stringify(
                     | WrongReferenceKind { .. }
                     | WrongRangeKind { .. }
                     | OpRangeKind { .. }
-                    | OpConcatenateKind { .. }
-                    | OpProductKind { .. }
                     | FunctionKind { .. }
                     | NamedFunctionKind { .. }
                     | LambdaDefKind { .. }
@@ -981,12 +1028,16 @@ fn stringify(
                     | NamedVariableKind { .. }
                     | ImplicitIntersection { .. }
                     | SpillRangeOperator { .. }
-                    | CompareKind { .. }
                     | ErrorKind(_)
                     | ParseErrorKind { .. }
                     | EmptyArgKind => false,
 
-                    OpPowerKind { .. } | OpSumKind { .. } | UnaryKind { .. } => true,
+                    OpPowerKind { .. }
+                    | OpSumKind { .. }
+                    | UnaryKind { .. }
+                    | OpConcatenateKind { .. }
+                    | OpProductKind { .. }
+                    | CompareKind { .. } => true,
                 };
                 if needs_parentheses {
                     format!(
@@ -1015,17 +1066,27 @@ fn stringify(
                 }
             }
             OpUnary::Percentage => {
-                format!(
-                    "{}%",
-                    stringify(
-                        right,
-                        context,
-                        displace_data,
-                        export_to_excel,
-                        locale,
-                        language
-                    )
-                )
+                let x = stringify(
+                    right,
+                    context,
+                    displace_data,
+                    export_to_excel,
+                    locale,
+                    language,
+                );
+                // % binds tighter than any binary operator: (1+2)% needs the parentheses
+                if matches!(
+                    **right,
+                    OpConcatenateKind { .. }
+                        | OpSumKind { .. }
+                        | OpProductKind { .. }
+                        | OpPowerKind { .. }
+                        | CompareKind { .. }
+                ) {
+                    format!("({x})%")
+                } else {
+                    format!("{x}%")
+                }
             }
         },
         ErrorKind(kind) => format!("{kind}"),
@@ -1045,17 +1106,29 @@ fn stringify(
                     )
                 );
             };
-            format!(
-                "{}#",
-                stringify(
-                    child,
-                    context,
-                    displace_data,
-                    export_to_excel,
-                    locale,
-                    language
-                )
-            )
+            let x = stringify(
+                child,
+                context,
+                displace_data,
+                export_to_excel,
+                locale,
+                language,
+            );
+            // the operand of # is a primary: any operator needs parentheses
+            if matches!(
+                **child,
+                OpRangeKind { .. }
+                    | OpConcatenateKind { .. }
+                    | OpSumKind { .. }
+                    | OpProductKind { .. }
+                    | OpPowerKind { .. }
+                    | CompareKind { .. }
+                    | UnaryKind { .. }
+            ) {
+                format!("({x})#")
+            } else {
+                format!("{x}#")
+            }
         }
         LambdaDefKind { parameters, body } => {
             let lambda_name = if export_to_excel {
@@ -1140,17 +1213,29 @@ fn stringify(
                     )
                 );
             }
-            format!(
-                "@{}",
-                stringify(
-                    child,
-                    context,
-                    displace_data,
-                    export_to_excel,
-                    locale,
-                    language
-                )
-            )
+            let x = stringify(
+                child,
+                context,
+                displace_data,
+                export_to_excel,
+                locale,
+                language,
+            );
+            // the operand of @ is a primary: any operator needs parentheses
+            if matches!(
+                **child,
+                OpRangeKind { .. }
+                    | OpConcatenateKind { .. }
+                    | OpSumKind { .. }
+                    | OpProductKind { .. }
+                    | OpPowerKind { .. }
+                    | CompareKind { .. }
+                    | UnaryKind { .. }
+            ) {
+                format!("@({x})")
+            } else {
+                format!("@{x}")
+            }
         }
     }
 }
